@@ -157,8 +157,8 @@ def run_regressions(pid, hs):
     return n, False
 
 
-def check(pid, tier, seed, hs, level, rule, assumptions=(), extra_cov=None, min_eval=1):
-    """Generic E1 check. Returns process exit code."""
+def check(pid, tier, seed, hs, level, rule, assumptions=(), extra_cov=None, min_eval=1, failures=None):
+    """Generic E1 check. Returns process exit code. `failures` (a list) receives the failing (harness, case) pairs."""
     t0 = time.time()
     workdir = os.path.join(core.WORK, pid)
     os.makedirs(workdir, exist_ok=True)
@@ -198,6 +198,8 @@ def check(pid, tier, seed, hs, level, rule, assumptions=(), extra_cov=None, min_
             raise InfraError(f"{r['h'].name} exited 1 without writing a replay case")
         if confirm_and_report(pid, r["h"], r["replay"] or {"note": "no case captured; see log"}, r["log"], died):
             viol += 1
+            if failures is not None:
+                failures.append((r["h"], r["replay"] or {}))
     for k in core.open_keys(pid):
         core.say(f"KNOWN-FINDING: property={pid} {k['key']} {k['what']}")
     cov = {
